@@ -4,7 +4,7 @@ From Coq Require Import List NArith Bool Arith Lia.
 From SV Require Import lib.Bytes lib.Closure lib.SqlExpr gen.GenSched model.Graph model.GraphInv model.Sched
   model.SchedGraph proofs.GraphBase proofs.GraphNodes proofs.GraphInvP proofs.SchedProofs proofs.SchedPrims
   proofs.SchedSeq proofs.SchedSkel proofs.SchedGraphCpl proofs.SchedGraphBelow proofs.SchedGraphSim
-  proofs.SchedGraphErase proofs.SchedGraphAcyclic proofs.SchedRevert proofs.SchedReconcile.
+  proofs.SchedGraphErase proofs.SchedGraphAcyclic proofs.SchedGraphDelete proofs.SchedRevert proofs.SchedReconcile.
 Import ListNotations.
 Open Scope N_scope.
 
@@ -81,12 +81,12 @@ Proof.
 Qed.
 
 (* a transaction that neither creates nor deletes nodes *)
-Theorem op_preserving_correct a o s g s' l : minv s g -> node_preserving o = true ->
+Theorem op_preserving_correct a o s g s' l : minv s g -> proven_op o = true ->
   step_op_t idf a o s = Ok (s', l) ->
   exists g', run_prims g l = Some g' /\ run_ok g l /\ minv s' g'.
 Proof.
   intros [HJ [C HF]] Hp E.
-  destruct (sim_FlagInv idf idf_inj s _ _ s' l g (step_op_t_sim_preserving idf idf_inj a o s HJ Hp) E HJ C HF)
+  destruct (sim_FlagInv idf idf_inj s _ _ s' l g (step_op_t_sim_proven idf idf_inj a o s HJ Hp) E HJ C HF)
     as [HJ' [g' [Er [C' [O [_ HF']]]]]].
   exists g'. split; [exact Er|]. split; [exact O|]. split; [exact HJ'|]. split; assumption.
 Qed.
@@ -103,7 +103,7 @@ Qed.
 (* ---- reachable states of the combined machine ---- *)
 Inductive reach : st -> graph -> Prop :=
 | reach_start s g : minv s g -> reach s g
-| reach_op a o s g s' l g' : reach s g -> node_preserving o = true ->
+| reach_op a o s g s' l g' : reach s g -> proven_op o = true ->
     step_op_t idf a o s = Ok (s', l) -> run_prims g l = Some g' -> reach s' g'
 | reach_certified a o s g s' l g' : reach s g ->
     step_op_t idf a o s = Ok (s', l) -> run_prims g l = Some g' ->
@@ -170,7 +170,7 @@ Proof.
 Qed.
 
 (* the machine is never stuck on a transaction of the proven class *)
-Theorem reach_progress a o s g s' : reach s g -> node_preserving o = true -> step_op o s = Ok s' ->
+Theorem reach_progress a o s g s' : reach s g -> proven_op o = true -> step_op o s = Ok s' ->
   exists l g', step_op_t idf a o s = Ok (s', l) /\ run_prims g l = Some g' /\ reach s' g'.
 Proof.
   intros H Hp E. destruct (step_op_t_ok idf a o s s' E) as [l El].
